@@ -31,6 +31,7 @@ FILESETS = [
     [],
     [("a.txt", ["{version}"])],
     [("a.txt", ["{version}", "v{pep440_version}"]), ("docs/*.md", ["Copyright YYYY"])],
+    [("VERSION", ["{version}"]), ("Makefile", ["VERSION := {version}"]), ("src/Pkg_Name", ["{version}"])],   # names keep their case
 ]
 
 
@@ -101,7 +102,8 @@ def build(commit, tag, push, scope, msg, files, spell, quote, own_listed, hook=0
 
 
 def _parse(fname, text, toml_dict=None):
-    fs = MemFS({fname: text, "a.txt": "1.2.3", "docs/x.md": "", "docs/y.md": "", "hook.sh": "#!/bin/sh"})
+    fs = MemFS({fname: text, "a.txt": "1.2.3", "docs/x.md": "", "docs/y.md": "", "hook.sh": "#!/bin/sh",
+                "VERSION": "1.2.3", "Makefile": "VERSION := 1.2.3", "src/Pkg_Name": "1.2.3"})
     saved = (config.pl, config.toml)
     config.pl = NS(Path=fs.Path)
     if toml_dict is not None:
@@ -128,7 +130,7 @@ def _norm(cfg, own):
 def same_meaning(commit: bool, tag: int, push: int, scope: int, msg: int, files: int, spell: int, quote: int, own_listed: bool,
                  hook: int = 0) -> bool:
     """
-    pre: 0 <= tag <= 2 and 0 <= push <= 2 and 0 <= scope <= 3 and 0 <= msg <= 2 and 0 <= files <= 2 and 0 <= spell <= 5 and 0 <= quote <= 2
+    pre: 0 <= tag <= 2 and 0 <= push <= 2 and 0 <= scope <= 3 and 0 <= msg <= 2 and 0 <= files <= 3 and 0 <= spell <= 5 and 0 <= quote <= 2
     pre: 0 <= hook <= 2 and fx("hook", hook)
     pre: fx("spell", spell) and fx("quote", quote) and fx("files", files) and fx("msg", msg) and fx("own_listed", own_listed)
     post: _
